@@ -2,16 +2,26 @@ use crate::{units::AllocatedMemory, xvalue::XValue};
 
 pub(crate) trait Allocateable {
     fn byte_size(&self) -> AllocatedMemory;
+    #[cfg(xray_verif)]
+    fn verif_kind_payload(&self) -> (&'static str, usize);
 }
 
 impl<W, R, T> Allocateable for XValue<W, R, T> {
     fn byte_size(&self) -> AllocatedMemory {
         self.size().into()
     }
+    #[cfg(xray_verif)]
+    fn verif_kind_payload(&self) -> (&'static str, usize) {
+        self.verif_kind_payload_dyn()
+    }
 }
 
 impl Allocateable for String {
     fn byte_size(&self) -> AllocatedMemory {
         self.len().into()
+    }
+    #[cfg(xray_verif)]
+    fn verif_kind_payload(&self) -> (&'static str, usize) {
+        ("errmsg", self.len())
     }
 }
